@@ -109,6 +109,13 @@ CLAIMED["C19"] = (
     "DESIGN.md 3/C19",
 )
 
+CLAIMED["C08"] = (
+    "runtime monitor with independent mesh checks: random CSG scenes accepted only when the surface lies strictly inside the region, meshed at depth 1..6 with rigid+scale transforms, both backends, pools; directed-edge pairing, repeated indices, finite coordinates at every depth; per-component winding against an f64 dual-number gradient and signed volume against a Monte-Carlo estimate when the grid resolves the features; geometric classifier for non-manifold edges; crash monitor",
+    "Held on every mesh observed except the listed known finding (ambiguous-face dual edge). Volume errors stay below 15% of the tolerance 0.4*h*area + 4 sigma. Exploration.",
+    "Orientation and volume are judged only when the cell size is at most a third of the generator's smallest feature and (orientation) the component has substantial area; zero-area slivers are legal.",
+    "DESIGN.md 3/C08",
+)
+
 NOT_YET = {}
 
 def main():
